@@ -434,6 +434,8 @@ def run(ck):
         bad = [i for i in P.impls if i["trait"] in ("core::clone::Clone", "core::marker::Copy") and mir.strip_ty(i["for"]) == o]
         ck.decide(not bad, "WHO/no-clone", o.replace(Z, ""), "neither Clone nor Copy: duplication only through copy()",
                   "%s implements %s: safe code can make a bitwise duplicate that shares (and double-frees) the allocation" % (o, [b["trait"] for b in bad]))
+    from .. import condparity
+    ck.floor("SIB/ref-conditions", condparity.check(ck, P, "SIB/ref-conditions", only={"deflate.c:deflateResetKeep", "inflate.c:inflateReset2", "inflate.c:inflateInit2", "deflate.c:deflateInit2"}), 12)
     from .. import refwrites
     ck.floor("SIB/ref-writes", refwrites.check(ck, P, "SIB/ref-writes", only={"deflate.c:deflateResetKeep", "inflate.c:inflateResetKeep",
              "inflate.c:inflateReset2", "deflate.c:lm_init", "deflate.c:lm_set_level"}), 30)
